@@ -448,7 +448,9 @@ fn check(c: &Case) -> Verdict {
               if !is_unhandled(other) {
                 if let e @ (Expect::Exactly(_) | Expect::OneOf(_) | Expect::ApproxF64(_) | Expect::ApproxF32(_)) = model(c.op, &a, b.as_ref()) {
                   let _ = e;
-                  v.fail(format!("C01|scalar-rejected|{}|{}", opn, ek), format!("{} {} {} has a representable result but gave {}", a.show(), c.op.sym(), b.as_ref().map(|b| b.show()).unwrap_or_default(), other.show()));
+                  // the one signed-integer corner where the hardware remainder overflows although the mathematical result (0) is representable
+                  let min_by_minus_one = opn == "mod" && matches!((&a, b.as_ref()), (Sc::I(bits, x), Some(Sc::I(_, -1))) if *x == -(1i128 << (*bits as u32 - 1)));
+                  v.fail(if min_by_minus_one { format!("C01|scalar-rejected|mod|min-by-minus-one|{}", ek) } else { format!("C01|scalar-rejected|{}|{}", opn, ek) }, format!("{} {} {} has a representable result but gave {}", a.show(), c.op.sym(), b.as_ref().map(|b| b.show()).unwrap_or_default(), other.show()));
                   return v;
                 }
               }
